@@ -1,4 +1,4 @@
-import OrdModel.Proofs.IndexMiscReplayRunes
+import OrdModel.Proofs.IndexMiscReplayUtxoPass
 /-
 C37 — index events replay to the indexed state.
 
@@ -9,14 +9,12 @@ output balances; `project cfg st` reads the same out of the index tables.  Full 
   theorem c37_replay (h : run cfg chain = .ok (st, evs)) (valid chain) :
       ∀ component, (replay cfg evs chain).component ≈ (project cfg st).component     (as maps)
 
-Proved here: the rune-existence and mint-count components, for every chain and every
-configuration, modulo one frame fact about the UTXO/inscription pass that is stated as the
-explicit hypothesis `UtxoPassFrame cfg` (true of the model, not yet proved in Lean) — and with no
-hypothesis at all for a runes-only index (`RunesOnly cfg`), where that pass does not run.
-The per-block step lemma `c37_rune_block_step` is unconditional.  The remaining components
-(burned totals, balances, locations, charms, ids, unbound counter, no leftover events) are
-checked on every run by the oracle line `ix.oracle.replay` on the implementation's own events
-and tables; see notes/C37.md for what their proofs need.
+Proved here, for every chain and every configuration, with no validity hypothesis: the
+rune-existence component (`c37_rune_entries`, as lists) and the mint-count component
+(`c37_mints`, as maps), plus the unconditional per-block step lemma `c37_rune_block_step`.
+The remaining components (burned totals, balances, locations, charms, ids, unbound counter, no
+leftover events) are checked on every run by the oracle line `ix.oracle.replay` on the
+implementation's own events and tables; see notes/C37.md for what their proofs need.
 -/
 namespace Ord.Index
 
@@ -31,33 +29,30 @@ theorem c37_rune_block_step (c : List Block) (rs : ReplayState) (st st' : State)
 
 /-- Rune existence: after any successfully indexed chain the runes announced by `RuneEtched`
 events, in order, are exactly the keys of the rune entry table, in table order. -/
-theorem c37_rune_entries_partial (cfg : Cfg) (hf : UtxoPassFrame cfg ∨ RunesOnly cfg) (chain : List Block)
-    (st : State) (evs : List Event) (h : run cfg chain = .ok (st, evs)) :
+theorem c37_rune_entries (cfg : Cfg) (chain : List Block) (st : State) (evs : List Event)
+    (h : run cfg chain = .ok (st, evs)) :
     (replay cfg evs chain).runes = (project cfg st).runes :=
-  (run_rinv chain cfg hf chain st evs h).runes
+  (run_rinv chain cfg (.inl (utxoPassFrame cfg)) chain st evs h).runes
 
 /-- Mint counts: for every rune id, the number of `RuneMinted` events since its (last)
 `RuneEtched` event is the `mints` field of its entry; ids without an entry have no count. -/
-theorem c37_mints_partial (cfg : Cfg) (hf : UtxoPassFrame cfg ∨ RunesOnly cfg) (chain : List Block)
-    (st : State) (evs : List Event) (h : run cfg chain = .ok (st, evs)) (id : RuneId) :
+theorem c37_mints (cfg : Cfg) (chain : List Block) (st : State) (evs : List Event)
+    (h : run cfg chain = .ok (st, evs)) (id : RuneId) :
     AL.get (replay cfg evs chain).mints id = AL.get (project cfg st).mints id := by
-  have := (run_rinv chain cfg hf chain st evs h).mints id
+  have := (run_rinv chain cfg (.inl (utxoPassFrame cfg)) chain st evs h).mints id
   show AL.get (evs.foldl (applyEvent chain) {}).mints id = AL.get (st.runeEntries.map _) id
   rw [this]
   exact (AL.get_map_val (fun e : RuneEntry => e.mints) st.runeEntries id).symm
 
-/-- the two above without any hypothesis, for an index that only indexes runes -/
-theorem c37_rune_entries_runes_only (cfg : Cfg) (hro : RunesOnly cfg) (chain : List Block)
-    (st : State) (evs : List Event) (h : run cfg chain = .ok (st, evs)) :
-    (replay cfg evs chain).runes = (project cfg st).runes :=
-  c37_rune_entries_partial cfg (.inr hro) chain st evs h
+/-- The inscription / UTXO pass of a block is invisible on the rune side: it leaves the rune
+entries and balances alone and emits only inscription events (events without a txid field). -/
+theorem c37_utxo_pass_emits_no_rune_event (cfg : Cfg) (st : State) (blk : Block) (st1 : State) (ev1 : List Event)
+    (h : indexUtxoEntries cfg st blk = .ok (st1, ev1)) :
+    st1.runeEntries = st.runeEntries ∧ st1.balances = st.balances ∧ ∀ e ∈ ev1, evTxid e = none :=
+  ⟨(indexUtxoEntries_rsame cfg st blk st1 ev1 h).1.1, (indexUtxoEntries_rsame cfg st blk st1 ev1 h).1.2,
+   (indexUtxoEntries_rsame cfg st blk st1 ev1 h).2⟩
 
-theorem c37_mints_runes_only (cfg : Cfg) (hro : RunesOnly cfg) (chain : List Block)
-    (st : State) (evs : List Event) (h : run cfg chain = .ok (st, evs)) (id : RuneId) :
-    AL.get (replay cfg evs chain).mints id = AL.get (project cfg st).mints id :=
-  c37_mints_partial cfg (.inr hro) chain st evs h id
-
-/-! ### non-vacuity: a runes-only index over a two-block chain with an etching (reserved name,
+/-! ### non-vacuity: an index (runes only, to keep the example small) over a two-block chain with an etching (reserved name,
 open mint terms) and a mint of it succeeds, emits `RuneEtched`, `RuneTransferred`, `RuneMinted`, `RuneTransferred`
 (premine 7 + mint 3 = 10 moved to one output), and the replay reproduces the projection -/
 
@@ -73,8 +68,6 @@ def exChain : List Block :=
        ⟨22, [⟨⟨12, 0⟩, false, none, []⟩], [⟨0, true, []⟩, ⟨50, false, []⟩], [],
          some (.runestone [] none (some ⟨0, 1⟩) none), 0⟩]⟩ ]
 
-example : RunesOnly exCfg := ⟨rfl, rfl, rfl⟩
-
 example : (match run exCfg exChain with
     | .ok (st, evs) =>
       (evs.length, (replay exCfg evs exChain).runes, (replay exCfg evs exChain).mints,
@@ -82,9 +75,8 @@ example : (match run exCfg exChain with
     | _ => (0, [], [], [], false)) = (4, [⟨0, 1⟩], [(⟨0, 1⟩, 1)], [(⟨0, 1⟩, 1)], true) := by decide
 
 #print axioms c37_rune_block_step
-#print axioms c37_rune_entries_partial
-#print axioms c37_mints_partial
-#print axioms c37_rune_entries_runes_only
-#print axioms c37_mints_runes_only
+#print axioms c37_rune_entries
+#print axioms c37_mints
+#print axioms c37_utxo_pass_emits_no_rune_event
 
 end Ord.Index
